@@ -320,6 +320,42 @@ def run(chk: Check):
             if not same(first[k], fresh[k]) or not same(again[k], fresh[k]):
                 chk.fail(f"{name}: data set {k} evaluated by one object gives {first[k]!r} at first and {again[k]!r} after {n_life} other evaluations; a fresh object gives {fresh[k]!r}", case)
                 break
+    # data with missing or non-finite observations ("for all data"): a gap in the empirical series (NaN), an overflowed simulation (+-inf).  Whatever value a
+    # loss assigns to such data, or whichever error it raises, the caller's arrays are byte-for-byte what they were and a second evaluation says the same
+    n_nf = 6 if chk.tier == "quick" else 40
+    for _ in range(n_nf):
+        e, n, d = rng.randint(1, 3), rng.choice([16, 24]), rng.randint(1, 2)
+        sim, real = gen_series(rng, e, n, d)
+        where = rng.choice(["real", "real", "sim", "both"])
+        vals = [rng.choice([float("nan"), float("nan"), float("inf"), -float("inf")]) for _ in range(rng.randint(1, 3))]
+        for v in vals:
+            if where in ("real", "both"):
+                real[rng.randrange(n), rng.randrange(d)] = v
+            if where in ("sim", "both"):
+                sim[rng.randrange(e), rng.randrange(n), rng.randrange(d)] = v
+        for name, mk0 in makers.items():
+            _CUR["d"] = d
+            case = {"case": {"kind": "non_finite_data", "loss": name, "E": e, "N": n, "D": d, "where": where, "values": [repr(v) for v in vals], "sim": sim.tolist(), "real": real.tolist()}}
+            s0, r0 = sim.tobytes(), real.tobytes()
+            outs = []
+            with warnings.catch_warnings(), np.errstate(all="ignore"):
+                warnings.simplefilter("ignore")
+                obj = mk0()
+                for _rep in range(2):
+                    try:
+                        outs.append(f2h(float(obj.compute_loss(sim, real))))
+                    except Exception as ex:  # noqa: BLE001
+                        outs.append("raised " + type(ex).__name__)
+                    if sim.tobytes() != s0 or real.tobytes() != r0:
+                        which = "real_data" if real.tobytes() != r0 else "sim_data"
+                        chk.fail(f"{name}: compute_loss modified its input {which} (data with non-finite observations {vals!r} in {where}); evaluation {_rep + 1} gave {outs[-1]}", case)
+                        sim = np.frombuffer(s0, dtype=sim.dtype).reshape(sim.shape).copy(); real = np.frombuffer(r0, dtype=real.dtype).reshape(real.shape).copy()
+                        break
+            nanish = lambda t: t in ("7ff8000000000000", "fff8000000000000")
+            if len(outs) == 2 and outs[0] != outs[1] and not (nanish(outs[0]) and nanish(outs[1])):
+                chk.fail(f"{name}: the same data (with non-finite observations) evaluated twice by one object gives {outs[0]} then {outs[1]}", case)
+            chk.case(["non-finite", name, e, n, d, where, outs[0]], True, {"loss": name, "where": where, "result": outs[0]})
+            chk.count("non_finite_data:" + where); chk.count("non_finite_data:outcome=" + ("raised" if outs[0].startswith("raised") else "nan" if nanish(outs[0]) else "number"))
     # wrong-length lists on the built-ins
     for name, mk in makers.items():
         for which in ("coordinate_weights", "coordinate_filters"):
